@@ -59,11 +59,19 @@ def attr (n : XNode) (name : String) : Option String :=
   | elem _ _ _ attrs _ => (attrs.find? (fun a => a.ns.isNone && a.name == name)).map (·.value)
   | _ => none
 
-/-- `text()`: the text of the first child if that child is a text node -/
+/-- the text pieces among the children of a node, in document order -/
+def textPieces : List XNode → List String
+  | [] => []
+  | text s :: cs => s :: textPieces cs
+  | _ :: cs => textPieces cs
+
+/-- `xml::text_of`: ALL the text of an element — also if elements of extensions, comments or processing
+    instructions stand before or between the pieces; `none` if the element contains no text at all
+    (roxmltree's `text()`, used before, looked at the first child only) -/
 def textOf (n : XNode) : Option String :=
-  match n with
-  | elem _ _ _ _ (text s :: _) => some s
-  | _ => none
+  match textPieces n.children with
+  | [] => none
+  | t :: ts => some (ts.foldl (· ++ ·) t)
 
 /-- `children().find(|n| n.has_tag_name(tag))` -/
 def findChild (n : XNode) (tag : String) : Option XNode :=
